@@ -43,7 +43,23 @@ PROBES = ["fasta-replace-existing", "fastq-score-at-or-plus-at-line-start", "fas
           "genbank-join-location", "genbank-open-ended-location", "gff-percent-quoted", "gff-multi-location-feature",
           "stream-read-iter", "stream-write-iter", "typed-roundtrip", "rejected-op", "restart"]
 
-MEDIA = ["memory", "path", "tempfile", "wrapper", "pathobj"]
+MEDIA = ["memory", "path", "tempfile", "wrapper", "pathobj", "shortread"]
+
+
+class ShortReadIO(io.StringIO):
+    """A text stream that hands out at most `k` characters per read(size) call, as pipes, sockets and some wrappers do
+    (a short read is legal for any file object). read() without a size still returns everything."""
+
+    def __init__(self, text, k):
+        super().__init__(text)
+        self.k = k
+        self.short_reads = 0
+
+    def read(self, size=-1):
+        if size is None or size < 0:
+            return super().read()
+        self.short_reads += 1
+        return super().read(min(size, self.k))
 
 
 # ================================================================================================
@@ -531,6 +547,15 @@ class Base:
             writer(buf)
             buf.seek(0)
             return reader(buf)
+        if medium == "shortread":
+            buf = io.StringIO()
+            writer(buf)
+            text = buf.getvalue()
+            src = ShortReadIO(text, (1, 3, 16, 64, 4096)[len(text) % 5])
+            out = reader(src)
+            if src.short_reads:
+                self.res.stats["fault:short-read"] += src.short_reads
+            return out
         d = self.dir()
         if medium == "path":
             p = os.path.join(d, "m" + suffix)
